@@ -60,9 +60,14 @@ func (p *parser) parseSelector() (s Selector, err error) {
 }
 
 func (p *parser) parseLabelMatcher() (m LabelMatcher, err error) {
-	m.Label, err = p.parseIdent()
-	if err != nil {
-		return m, err
+	// Keywords (`json`, `on`, `by`, `keep`, ...) are valid label names too.
+	switch t := p.next(); {
+	case t.Type == lexer.Ident:
+		m.Label = Label(t.Text)
+	case t.Type != lexer.String && IsValidLabel(t.Text, p.allowDots) == nil:
+		m.Label = Label(t.Text)
+	default:
+		return m, errors.Wrapf(p.unexpectedToken(t), "expected %q", lexer.Ident)
 	}
 
 	switch t := p.next(); t.Type {
